@@ -505,6 +505,7 @@ class Check:
         self.samples = []
         self.notes = []
         self.n_replay = 0
+        self.unconfirmed = []
         self.broken_ties = []      # descriptions of proof/translator/correspondence breakage
         self.known = load_known(prop)
         os.makedirs(EVID, exist_ok=True)
@@ -581,6 +582,13 @@ class Check:
             print("KNOWN-FINDING: property=%s %s [%s]" % (self.prop, entry["what"], entry["id"]), flush=True)
 
     def violation(self, what, replay, no_input=False):
+        if not no_input and any(b.startswith("translator: ") for b in self.broken_ties):
+            # the constants/tables this property's model is regenerated from could not be read off the source: a disagreement
+            # between the implementation and such a model is not a confirmed failing input (the rewrite may be harmless);
+            # it goes into the replay of the no-failing-input-found report instead
+            self.unconfirmed.append({"what": what, "replay": replay})
+            log("  (unconfirmed, the model could not be regenerated) " + what[:300])
+            return
         self.n_replay += 1
         path = os.path.join(REPLAYS, "%s-%s-%d.json" % (self.prop, self.tier, self.n_replay))
         replay = dict(replay)
@@ -602,7 +610,8 @@ class Check:
         if self.broken_ties and not self.violations:
             self.violation("proof or tie to the code no longer checks and no failing input was found: " +
                            " | ".join(self.broken_ties)[:3000],
-                           {"broken": self.broken_ties, "kind": "broken-proof-or-tie"}, no_input=True)
+                           {"broken": self.broken_ties, "kind": "broken-proof-or-tie",
+                            "unconfirmed_disagreements": self.unconfirmed[:20]}, no_input=True)
         cov = {
             "obligations": max(1, len(self.obligations)),
             "discharged": len(self.discharged) if self.obligations else 0,
